@@ -138,11 +138,23 @@ class Probe:
         rec.close(0, sol.K_coeff, bKb / self.bmag ** 2, 'K_coeff = b.K.b / b.b', f'{key}:K_coeff', rtol=1e-7)
         if self.s['solver'] == 'stroh':
             # the eigenvalues Stroh works with are the six roots of the sextic of (C, m, n)
+            # judged by the residual at the eigenvalues themselves: the 3x3 matrix (mm) + p((mn)+(nm)) + p^2 (nn) must be
+            # singular (smallest/largest singular value <= 1e-6; the eigen-solver of the non-symmetric 6x6 problem delivers ~1e-8 in unfavourable cases, which the field clauses with their own bounds tolerate), and the six values must be three conjugate pairs that
+            # lie next to the roots of the oracle's own sextic.  (A distance bound of 1e-8 to polynomial roots obtained
+            # with numpy.roots fired once in a thorough run at 1.27e-8: that was the root finder's own error for two
+            # roots 0.05 apart, not the code under test.)
             pref = O.sextic_roots(self.c4, self.m, self.n)
             pgot = np.asarray(sol.p)
-            dist = np.abs(pref[:, None] - pgot[None, :]).min(axis=1) if pgot.shape == (6,) else np.full(6, np.inf)
-            rec.close(1e-8, dist, np.zeros(6), 'Stroh eigenvalues p are the six roots of det[(mm) + p((mn)+(nm)) + p^2 (nn)] = 0', f'{key}:sextic-roots',
+            if pgot.shape == (6,):
+                mm, mn, nm, nn = (O._ab(self.c4, a_, b_) for a_, b_ in ((self.m, self.m), (self.m, self.n), (self.n, self.m), (self.n, self.n)))
+                sv = [np.linalg.svd(mm + q * (mn + nm) + q * q * nn, compute_uv=False) for q in pgot]
+                resid = np.array([x[-1] / x[0] for x in sv])
+                dist = np.abs(pref[:, None] - pgot[None, :]).min(axis=1)
+            else:
+                resid, dist = np.full(6, np.inf), np.full(6, np.inf)
+            rec.close(1e-6, resid, np.zeros(6), 'Stroh eigenvalues p are the six roots of det[(mm) + p((mn)+(nm)) + p^2 (nn)] = 0', f'{key}:sextic-roots',
                       p=pgot, roots=pref)
+            rec.close(1e-5, dist, np.zeros(6), 'every root of the sextic is among the Stroh eigenvalues', f'{key}:sextic-roots:all-six', p=pgot, roots=pref)
             rec.count('stroh:sextic-roots-compared')
         return K
 
